@@ -21,6 +21,24 @@
   in particular in the state right after each callback step — they are statements about the
   order of the callback calls, not just about final counts.
 
+  EXCLUDED (outside the quantifier of every theorem below; none of it is modelled):
+    * a call of `thread_stop()` made BY THE WORKER ITSELF — from inside one of its callbacks, or from a
+      destructor (`__del__` → `disconnect()`) that the garbage collector happens to run on the worker
+      thread.  `Thread.join()` on the current thread raises `RuntimeError("cannot join current thread")`;
+      the handle is then NOT cleared and the flag stays set.  `/repo/src/nxslib/comm.py:459-466`
+      (`CommHandler.disconnect`: "dirty fix for occasional RuntimeError in thread.thread_stop()") documents
+      that this has been seen in practice and swallows the exception.  In the model the worker executes only
+      `_thread_loop`, and its callbacks "do not touch the `ThreadCommon` object" (`Worker.lean`, ASSUMED);
+    * a SECOND CONTROLLER: two threads calling start / stop / is_alive on the same object concurrently
+      (e.g. `disconnect()` from the application thread racing a `__del__` on another thread).  `thread_stop`
+      is not atomic (`is_alive()` … `join()` … `_thrd = None`): a second stop can find `_thrd` already `None`
+      after its own aliveness test and raise `AttributeError`, and a start racing a stop can leave two
+      workers.  The model has ONE controller, whose calls do not overlap (`Ctl` is a single program counter);
+    * callbacks that raise (the worker thread dies without calling final) or never return (stop never
+      returns: `join()` has no timeout — by design, see `stop_returns`);
+    * which thread the controller is (its name, whether it is the main thread) is immaterial in the model;
+      the check's scenarios include a controller that carries the worker's thread name.
+
   Partial (see DESIGN.md section 5/C13): `Thread.start/join/is_alive` and `Event` are assumed
   to behave as documented (listed at the top of `Worker.lean`); liveness ("keeps calling
   target") is proved as "alive, inside the loop, flag clear, and a target call is at most
@@ -207,6 +225,78 @@ theorem stop_returns {c : Cfg} {s : State} (h : Reach c s) (hc : inStop s = true
   obtain ⟨s', hs, hi⟩ := finishStop_steps _ h1
   exact ⟨s', hs, hs.reach h, hi⟩
 
+/-- `ReachC` is `Reach` with history counters carried along (same steps, same initial state): forgetting
+    the counters gives a `Reach` state … -/
+theorem reachC_is_reach {c : Cfg} {s : State} {g : Calls} (h : ReachC c s g) : Reach c s := h.reach
+
+/-- … and every `Reach` state carries counters -/
+theorem reach_has_calls {c : Cfg} {s : State} (h : Reach c s) : ∃ g, ReachC c s g := h.exists_calls
+
+/-- "once stop has returned … final once after the last": in every reachable state `s` — any history,
+    any schedule — in which a `thread_stop()` call made on a started worker returns (the controller's
+    step `s → s'` is the return of that call), the `final` callback has been called EXACTLY once and the
+    `init` callback EXACTLY once since the thread of that run was created (exactly zero times for a
+    callback that was not given; `g` counts without saturation and is never reset except by
+    `threading.Thread(...)`), and in the state `s'` in which the call has returned there is no handle and
+    no worker thread, the controller is idle and believes the worker stopped.  (The per-worker monitor of
+    the other theorems is forgotten with the terminated worker at `self._thrd = None`, before the return;
+    hence the history counters of `ReachC`.) -/
+theorem stop_returned_final_once {c : Cfg} {s : State} {g : Calls} (h : ReachC c s g)
+    (hs : s.started = true) {v : Option Bool} {s' : State}
+    (hr : (Who.ctl, Ev.ret .stop v, s') ∈ stepL c s) :
+    g.nFin = expected c.hasFinal ∧ g.nInit = expected c.hasInit ∧
+    s'.ctl = .idle ∧ s'.started = false ∧ s'.cur = none ∧ s'.others = [] ∧ live s' = 0 := by
+  -- the return step is a controller step
+  have hctl : (Ev.ret .stop v, s') ∈ ctlStep c s := by
+    simp only [stepL, List.mem_append, List.mem_map, List.mem_filterMap] at hr
+    rcases hr with (⟨p, hp, he⟩ | ⟨p, _, he⟩) | ⟨k, _, he⟩
+    · cases he; exact hp
+    · cases he
+    · cases hk : otherStep c s k with
+      | none => simp [hk] at he
+      | some q => simp [hk] at he
+  -- the counters
+  have h1 := reachC_okStopRet h
+  have hsr : stopReturns c s = true := by
+    simp only [stopReturns, List.any_eq_true]
+    exact ⟨_, hctl, rfl⟩
+  simp only [okStopRet, hsr, hs, Bool.and_self, Bool.not_true, Bool.false_or, Bool.and_eq_true,
+    Calls.sat] at h1
+  have h1a := of_decide_eq_true h1.1
+  have h1b := of_decide_eq_true h1.2
+  have e1 := expected_le_one c.hasFinal
+  have e2 := expected_le_one c.hasInit
+  refine ⟨by omega, by omega, ?_⟩
+  -- the state after the return
+  have hr' : Reach c s' := Reach.step h.reach (ctlStep_mem_step hctl)
+  have hshape : s'.ctl = .idle ∧ s'.started = false := by
+    unfold ctlStep at hctl
+    split at hctl
+    · simp only [List.map_cons, List.map_nil, List.mem_cons, List.not_mem_nil, or_false,
+        Prod.mk.injEq] at hctl
+      rcases hctl with ⟨h0, _⟩ | ⟨h0, _⟩ | ⟨h0, _⟩ <;> cases h0
+    · split at hctl
+      · simp only [List.mem_cons, List.not_mem_nil, or_false, Prod.mk.injEq] at hctl
+        cases hctl.1
+      · split at hctl
+        · simp at hctl
+        · next ev s'' pc' hex =>
+          simp only [List.mem_cons, List.not_mem_nil, or_false, Prod.mk.injEq] at hctl
+          obtain ⟨h0, _⟩ := hctl
+          subst h0
+          unfold execCtl at hex
+          split at hex <;> (try split at hex) <;> (try split at hex) <;> simp at hex
+        · simp only [List.mem_cons, List.not_mem_nil, or_false, Prod.mk.injEq] at hctl
+          obtain ⟨h0, h1⟩ := hctl
+          cases h0
+          subst h1
+          simp [finishCall]
+        · simp only [List.mem_cons, List.not_mem_nil, or_false, Prod.mk.injEq] at hctl
+          cases hctl.1
+  have hn : inStart s' = false := by simp [inStart, hshape.1]
+  obtain ⟨a, b, d, _⟩ := no_target_after_stop_returned hr' hshape.2 hn
+  exact ⟨hshape.1, hshape.2, a, b, d⟩
+
 /-- the generated programs are well-formed control-flow graphs (no successor index outside) -/
 theorem programs_wellformed : progsWf = true := by decide +kernel
 
@@ -251,5 +341,86 @@ example : ∃ s, Reach ⟨true, true⟩ s ∧ (fun s => !s.started && inStop s) 
 example : ∃ s, Reach ⟨true, true⟩ s ∧ (fun s => inStop s && (ctlStep ⟨true, true⟩ s).isEmpty &&
     decide (live s = 1)) s = true :=
   reach_of_path (is := [0, 0, 0, 0, 0, 0, 1, 0, 0, 0, 0]) (by decide +kernel)
+
+/-- a stop call on a started worker is about to return (hypotheses of `stop_returned_final_once`), for
+    each of the four callback configurations -/
+example : ∃ s g v s', ReachC ⟨true, true⟩ s g ∧ s.started = true ∧
+    (Who.ctl, Ev.ret .stop v, s') ∈ stepL ⟨true, true⟩ s :=
+  stop_return_exists (reach_of_path (is := [0, 0, 0, 0, 0, 0, 1, 0, 0, 0, 1, 1, 1, 1, 1, 1, 0, 0])
+    (by decide +kernel))
+example : ∃ s g v s', ReachC ⟨true, false⟩ s g ∧ s.started = true ∧
+    (Who.ctl, Ev.ret .stop v, s') ∈ stepL ⟨true, false⟩ s :=
+  stop_return_exists (reach_of_path (is := [0, 0, 0, 0, 0, 0, 1, 0, 0, 0, 1, 1, 1, 1, 1, 0, 0])
+    (by decide +kernel))
+example : ∃ s g v s', ReachC ⟨false, true⟩ s g ∧ s.started = true ∧
+    (Who.ctl, Ev.ret .stop v, s') ∈ stepL ⟨false, true⟩ s :=
+  stop_return_exists (reach_of_path (is := [0, 0, 0, 0, 0, 0, 1, 0, 0, 0, 1, 1, 1, 1, 1, 0, 0])
+    (by decide +kernel))
+example : ∃ s g v s', ReachC ⟨false, false⟩ s g ∧ s.started = true ∧
+    (Who.ctl, Ev.ret .stop v, s') ∈ stepL ⟨false, false⟩ s :=
+  stop_return_exists (reach_of_path (is := [0, 0, 0, 0, 0, 0, 1, 0, 0, 0, 1, 1, 1, 1, 0, 0])
+    (by decide +kernel))
+
+/-! ### non-vacuity for the other callback configurations (init and / or final absent): the hypotheses
+    of the theorems above are met there too, and `expected` is then 0 for the absent callback -/
+
+/-- init only: start() returned and the worker has called init once and then target -/
+example : ∃ s, Reach ⟨true, false⟩ s ∧ (fun s => s.started && decide (s.ctl = .idle) &&
+    s.cur.any fun w => w.tgt && decide (w.nInit = 1)) s = true :=
+  reach_of_path (is := [0, 0, 0, 0, 0, 0, 3, 3, 3, 3]) (by decide +kernel)
+
+/-- init only: a run that has ended without any final call (none was given) -/
+example : ∃ s, Reach ⟨true, false⟩ s ∧ (fun s => s.cur.any fun w =>
+    w.tgt && decide (w.nInit = 1) && decide (w.nFin = 0) && decide (w.st = .done)) s = true :=
+  reach_of_path (is := [0, 0, 0, 0, 0, 0, 1, 0, 1, 1, 1, 0, 1, 1, 1, 1]) (by decide +kernel)
+
+/-- final only: start() returned and the worker calls target without any init call -/
+example : ∃ s, Reach ⟨false, true⟩ s ∧ (fun s => s.started && decide (s.ctl = .idle) &&
+    s.cur.any fun w => w.tgt && decide (w.nInit = 0)) s = true :=
+  reach_of_path (is := [0, 0, 0, 0, 0, 0, 3, 3, 3]) (by decide +kernel)
+
+/-- final only: a run that has ended: target was called, final exactly once, the loop has returned -/
+example : ∃ s, Reach ⟨false, true⟩ s ∧ (fun s => s.cur.any fun w =>
+    w.tgt && decide (w.nInit = 0) && decide (w.nFin = 1) && decide (w.st = .done)) s = true :=
+  reach_of_path (is := [0, 0, 0, 0, 0, 0, 1, 0, 1, 1, 0, 1, 1, 1, 1, 1]) (by decide +kernel)
+
+/-- no init, no final: the worker calls target … -/
+example : ∃ s, Reach ⟨false, false⟩ s ∧ (fun s => s.started && decide (s.ctl = .idle) &&
+    s.cur.any fun w => w.tgt && decide (w.nInit = 0)) s = true :=
+  reach_of_path (is := [0, 0, 0, 0, 0, 0, 3, 3, 3]) (by decide +kernel)
+
+/-- … and its run ends with neither callback called -/
+example : ∃ s, Reach ⟨false, false⟩ s ∧ (fun s => s.cur.any fun w =>
+    w.tgt && decide (w.nInit = 0) && decide (w.nFin = 0) && decide (w.st = .done)) s = true :=
+  reach_of_path (is := [0, 0, 0, 0, 0, 0, 1, 0, 1, 1, 0, 1, 1, 1, 1]) (by decide +kernel)
+
+/-- stop() has returned after a run (hypothesis of `no_target_after_stop_returned` / `restartable`), and
+    the controller is blocked in `join` on a live worker (`no_deadlock`, `stop_returns`), in the three
+    other configurations -/
+example : ∃ s, Reach ⟨true, false⟩ s ∧ (fun s => !s.started && decide (s.ctl = .idle) && s.flag &&
+    s.cur.isNone) s = true :=
+  reach_of_path (is := [0, 0, 0, 0, 0, 0, 1, 0, 0, 0, 1, 1, 1, 1, 1, 0, 0, 0]) (by decide +kernel)
+example : ∃ s, Reach ⟨false, true⟩ s ∧ (fun s => !s.started && decide (s.ctl = .idle) && s.flag &&
+    s.cur.isNone) s = true :=
+  reach_of_path (is := [0, 0, 0, 0, 0, 0, 1, 0, 0, 0, 1, 1, 1, 1, 1, 0, 0, 0]) (by decide +kernel)
+example : ∃ s, Reach ⟨false, false⟩ s ∧ (fun s => !s.started && decide (s.ctl = .idle) && s.flag &&
+    s.cur.isNone) s = true :=
+  reach_of_path (is := [0, 0, 0, 0, 0, 0, 1, 0, 0, 0, 1, 1, 1, 1, 0, 0, 0]) (by decide +kernel)
+example : ∃ s, Reach ⟨true, false⟩ s ∧ (fun s => inStop s && (ctlStep ⟨true, false⟩ s).isEmpty &&
+    decide (live s = 1)) s = true :=
+  reach_of_path (is := [0, 0, 0, 0, 0, 0, 1, 0, 0, 0, 0]) (by decide +kernel)
+example : ∃ s, Reach ⟨false, true⟩ s ∧ (fun s => inStop s && (ctlStep ⟨false, true⟩ s).isEmpty &&
+    decide (live s = 1)) s = true :=
+  reach_of_path (is := [0, 0, 0, 0, 0, 0, 1, 0, 0, 0, 0]) (by decide +kernel)
+example : ∃ s, Reach ⟨false, false⟩ s ∧ (fun s => inStop s && (ctlStep ⟨false, false⟩ s).isEmpty &&
+    decide (live s = 1)) s = true :=
+  reach_of_path (is := [0, 0, 0, 0, 0, 0, 1, 0, 0, 0, 0]) (by decide +kernel)
+
+/-- a start call on a started worker / a stop call on a never-started worker is in progress
+    (`start_on_running_noop`, `stop_on_stopped_noop`) without any callback -/
+example : ∃ s, Reach ⟨false, false⟩ s ∧ (fun s => s.started && inStart s) s = true :=
+  reach_of_path (is := [0, 0, 0, 0, 0, 0, 0]) (by decide +kernel)
+example : ∃ s, Reach ⟨false, false⟩ s ∧ (fun s => !s.started && inStop s) s = true :=
+  reach_of_path (is := [1]) (by decide +kernel)
 
 end Nxs.C13
